@@ -119,6 +119,22 @@ type Dumper struct {
 	Paths map[string][]int // hash -> shallowest path (1-based child indices)
 	AllV  bool             // evaluate every node (needed to judge table entries at any depth)
 	over  bool
+	// Ponder restricts the dump the way search.Context.Ponder restricts the search: along the line only
+	// the line's move is explored (whatever the configuration's own selection says); below it, as usual.
+	Ponder   []board.Move
+	linePath []int
+}
+
+func pathEq(a, b []int) bool {
+	if len(a) != len(b) {
+		return false
+	}
+	for i := range a {
+		if a[i] != b[i] {
+			return false
+		}
+	}
+	return true
 }
 
 func (d *Dumper) Over() bool { return d.over }
@@ -171,11 +187,18 @@ func (d *Dumper) Main(ctx context.Context, b *board.Board, depth int, path []int
 	if d.C.Explore != nil {
 		_, explore = d.C.Explore(ctx, b) // obtained at the parent, as the search does
 	}
+	onLine := len(path) < len(d.Ponder) && pathEq(path, d.linePath)
+	if onLine {
+		explore = d.Ponder[len(path)].Equals
+	}
 	for i, m := range legal {
 		if !b.PushMove(m) {
 			panic("legal move refused")
 		}
 		x := explore(m) // evaluated after the move has been pushed, as the search does
+		if onLine && x {
+			d.linePath = append(append([]int{}, path...), i+1)
+		}
 		var kid *Node
 		if x {
 			kid = d.Main(ctx, b, depth-1, append(path, i+1))
